@@ -36,6 +36,24 @@ Theorem C12_version : forall cfg sch, good cfg ->
 Proof. exact version_agreed. Qed.
 Print Assumptions C12_version.
 
+(* ... [cfg] includes the generation each end advertises (cgen, sgen): by [good] each is at least 3 and at
+   most 255 and at least one end is this code base, so C12_version covers a NEWER server answering this
+   client and a NEWER client announcing itself to this server (4, 5, ... 255): the outcome is
+   min(cgen, sgen) = 3 on whoever succeeds.  End by end, for every advertised version: *)
+Theorem C12_version_min_client : forall cfg ver rest v,
+  mt cfg = MMemfd -> cgen cfg = c_maxSupportProtoVersion -> 2 <= v < 256 ->
+  exists o, cstep cfg CWaitVer ver (hdr8 v c_typeExchangeProtoVersion :: rest) true = Some o /\
+            co_ver o = Z.min c_maxSupportProtoVersion v /\ (forall e, co_pc o <> CDone (RErr e)).
+Proof. exact client_picks_min. Qed.
+Print Assumptions C12_version_min_client.
+Theorem C12_version_min_server : forall f ver rest v,
+  c_maxSupportProtoVersion <= v < 256 ->
+  exists o, sstep c_maxSupportProtoVersion f SWaitFirst ver (hdr8 v c_typeExchangeProtoVersion :: rest) true = Some o /\
+            so_ver o = c_maxSupportProtoVersion /\ so_pc o = SWaitMeta /\
+            so_write o = [hdr8 c_maxSupportProtoVersion c_typeExchangeProtoVersion].
+Proof. exact server_picks_min. Qed.
+Print Assumptions C12_version_min_server.
+
 (* (3) whoever reports success maps the two objects the client created, under the client's paths *)
 Theorem C12_same_memory : forall cfg sch, good cfg ->
   let w := run cfg sch (init cfg) in
@@ -122,6 +140,16 @@ Example C12_example_memfd :
   let w := run wit_memfd happy (init wit_memfd) in
   cret (wc w) = Some ROk /\ sret (ws w) = Some ROk /\ cver (wc w) = 3 /\ sver (ws w) = 3 /\
   s_mapped w = [([47; 113], 11); ([47; 98], 22)] /\ c_out w = cscript wit_memfd /\ s_out w = sscript wit_memfd.
+Proof. vm_compute. repeat split. Qed.
+Example C12_example_newer_server :
+  let w := run wit_newer_server happy (init wit_newer_server) in
+  cret (wc w) = Some ROk /\ sret (ws w) = Some ROk /\ cver (wc w) = 3 /\ sver (ws w) = 3 /\
+  s_mapped w = [([47; 113], 11); ([47; 98], 22)].
+Proof. vm_compute. repeat split. Qed.
+Example C12_example_newer_client :
+  let w := run wit_newer_client happy (init wit_newer_client) in
+  cret (wc w) = Some ROk /\ sret (ws w) = Some ROk /\ cver (wc w) = 3 /\ sver (ws w) = 3 /\
+  s_mapped w = [([47; 113], 11); ([47; 98], 22)].
 Proof. vm_compute. repeat split. Qed.
 Example C12_example_stalled :
   let w := run wit_memfd stalled_peer_witness (init wit_memfd) in
